@@ -72,7 +72,7 @@ class ContentsFile(contentsSet):
                     gid=os_data.root_gid,
                     perms=0o644,
                 )
-            return readlines_utf8(self._source, True)
+            return readlines_utf8(self._source, False)
         fobj = self._source.text_fileobj(writable=write)
         if write:
             fobj.seek(0, 0)
@@ -85,6 +85,9 @@ class ContentsFile(contentsSet):
     def _iter_contents(self):
         self.clear()
         for line in self._get_fd():
+            # only the line terminator is not part of the entry: a path may end
+            # in whitespace, and data_source backed handles yield it unstripped.
+            line = line.rstrip("\n")
             if not line:
                 continue
             s = line.split(" ")
